@@ -82,7 +82,12 @@ def run():
         if not ck.quick and cfg["N"] != Nmax and ensemble.cell_key(dict(cfg, N=Nmax, n_total=8 * Nmax)) not in confirmed:
             ck.note(f"evidence offset at N={cfg['N']} not present at N={Nmax}: {cfg['target']} {cfg['kernel']} b={r1['b']:+.4f}")
             continue
-        ck.violation(mech_key(cfg), f"target {cfg['target']}, {cfg['kernel']}/{cfg['resample']}/clustering={cfg['clustering']}, N={cfg['N']}: mean logZ error "
+        key = mech_key(cfg)
+        if cfg["clustering"] and key.startswith("evidence-biased"):
+            sib = [c for c in cells if c["target"] == cfg["target"] and c["kernel"] == cfg["kernel"] and c["N"] == cfg["N"] and not c["clustering"]]
+            if sib and not any(ensemble.cell_key(c) in confirmed for c in sib):
+                key = "clustering-state-dependent-kernel"     # same target/kernel/N without clustering is clean
+        ck.violation(key, f"target {cfg['target']}, {cfg['kernel']}/{cfg['resample']}/clustering={cfg['clustering']}, N={cfg['N']}: mean logZ error "
                      f"{r1['b']:+.4f} +- {r1['se']:.4f} (z={r1['z']:.1f}); on 2R fresh seeds {r2['b']:+.4f} +- {r2['se']:.4f}", dict(cfg=cfg))
     ck.tables["logz"] = [dict(cell=r["cell"][:160], n=r["n"], b=r["b"], se=r["se"], z=r["z"], flag=r["flag"], stage=r.get("stage", 1)) for r in table]
     # (b) shared RNG states across seeds / within a run
